@@ -1,5 +1,5 @@
 '''C07 - chi-square verdict.'''
-from ..rules import stats, dataset
+from ..rules import stats, dataset, patterns
 from ..variants import stats as _v
 
 ID = 'C07'
@@ -23,7 +23,13 @@ ASSUMPTIONS = ['errors are non-negative (C08 DS-SIGN)', 'scipy chi2.sf is '
 def check(ctx):
     ctx.run(stats.check_chi2)
     ctx.run(dataset.check_quad, kinds=('sub',), nan_strict=True)
+    ctx.run(patterns.check_patterns, ID)
+
+
+def _variants(program):
+    return _v.variants(program, ID)
 
 
 def variants(program):
-    return _v.variants(program, ID)
+    from ..variants import patterns as _pv
+    return list(_variants(program)) + _pv.variants(program, ID)
